@@ -193,6 +193,23 @@ def cases(args):
                 _survive(e, got, V, "expand", detail, tol=1e-9)
             except Exception as ex:
                 V(f"C03:constructor:expand:raises:{type(ex).__name__}", f"{type(ex).__name__}: {ex}", detail)
+    # ------------------------------------------------------------ MpDm.from_mps: the diagonal embedding sum_n psi(n) |n><n|
+    for cplx in (False, True):
+        detail = {"constructor": "MpDm.from_mps", "family": fam, "N": N, "complex": cplx, "k": k}
+        out["cases"].append(json.dumps(detail))
+        try:
+            q = st.best_sector(basis)
+            m = st.random_mps(model, q, 3, (seed, "from_mps", k, cplx), cplx=cplx, coeff=(0.7 - 0.2j) if cplx else -1.3)
+            ref = np.diag(st.dense(m).reshape(-1))
+            d = MpDm.from_mps(m)
+            got = st.dense(d)
+            if np.linalg.norm(got - ref) > 1e-12 * (1 + np.linalg.norm(ref)):
+                V(f"C03:constructor:MpDm.from_mps:value:{'complex' if cplx else 'real'}", f"MpDm.from_mps(psi) differs from diag(psi) by {np.linalg.norm(got - ref) / np.linalg.norm(ref):.2e} (relative)", detail)
+            ok, worst, site = st.labels_valid(d)
+            if not ok:
+                V("C06:constructor:MpDm.from_mps:labels", f"labels invalid at site {site} ({worst:.1e})", detail)
+        except Exception as ex:
+            V(f"C03:constructor:MpDm.from_mps:raises:{type(ex).__name__}", f"{type(ex).__name__}: {ex}", detail)
     # ------------------------------------------------------------ density operators
     if esites and qn_size == 1:
         for which in ("ex", "gs"):
